@@ -69,9 +69,32 @@ def gen():
                         new = l[:m.start(1)] + table[tok] + l[m.end(1):]
                         what = "%s -> %s" % (tok, table[tok])
                     muts.append({"file": rel, "line": i + 1, "op": name, "what": what, "old": l, "new": new})
+            # swap two adjacent simple arguments on one line: f(a, b) -> f(b, a)
+            if "--swaps" in sys.argv:
+                for m in re.finditer(r"\(([&*]?[a-z_][\w.]*(?:\(\))?), ([&*]?[a-z_][\w.]*(?:\(\))?)([,)])", code):
+                    a, b2 = m.group(1), m.group(2)
+                    if a != b2:
+                        new = l[:m.start(1)] + b2 + ", " + a + l[m.end(2):]
+                        muts.append({"file": rel, "line": i + 1, "op": "argswap", "what": "swap `%s` / `%s`" % (a, b2), "old": l, "new": new})
             # whole-statement removal of a single-line ensure!/early return guard
             if re.match(r"^\s*ensure!\(.*\);\s*$", l):
                 muts.append({"file": rel, "line": i + 1, "op": "ensure", "what": "remove ensure!", "old": l, "new": ""})
+        # swap two adjacent one-line arguments of a multi-line call, or the values of two adjacent struct-literal fields
+        if "--swaps" in sys.argv:
+            for i in idx:
+                if i + 1 >= len(lines):
+                    continue
+                l1, l2 = lines[i], lines[i + 1]
+                m1 = re.match(r"^(\s+)([&*]?[a-z_][\w.]*(?:\(\))?(?:\.clone\(\)|\.to_string\(\))?),$", l1)
+                m2 = re.match(r"^(\s+)([&*]?[a-z_][\w.]*(?:\(\))?(?:\.clone\(\)|\.to_string\(\))?),$", l2)
+                if m1 and m2 and m1.group(1) == m2.group(1) and m1.group(2) != m2.group(2):
+                    muts.append({"file": rel, "line": i + 1, "op": "argswap2", "what": "swap lines `%s` / `%s`" % (m1.group(2), m2.group(2)),
+                                 "old": l1 + "\n" + l2, "new": l2 + "\n" + l1, "two": True})
+                f1 = re.match(r"^(\s+)([a-z_]\w*): (.+),$", l1)
+                f2 = re.match(r"^(\s+)([a-z_]\w*): (.+),$", l2)
+                if f1 and f2 and f1.group(1) == f2.group(1) and f1.group(3) != f2.group(3) and "{" not in l1 + l2 and "(" not in f1.group(3)[:1]:
+                    muts.append({"file": rel, "line": i + 1, "op": "fieldswap", "what": "swap values of `%s` / `%s`" % (f1.group(2), f2.group(2)),
+                                 "old": l1 + "\n" + l2, "new": "%s%s: %s,\n%s%s: %s," % (f1.group(1), f1.group(2), f2.group(3), f2.group(1), f2.group(2), f1.group(3)), "two": True})
         # multi-line ensure!( ... );
         src = "\n".join(lines)
         for m in re.finditer(r"\n([ \t]*)ensure!\(\n(.*?)\n\1\);", src, re.S):
@@ -88,6 +111,11 @@ def apply(root, mu):
         a, b = mu["span"]
         assert s[a:b] == mu["old"], "span mismatch"
         s2 = s[:a] + s[b:]
+    elif mu.get("two"):
+        lines = s.split("\n")
+        assert "\n".join(lines[mu["line"] - 1:mu["line"] + 1]) == mu["old"], "lines mismatch"
+        lines[mu["line"] - 1:mu["line"] + 1] = mu["new"].split("\n")
+        s2 = "\n".join(lines)
     else:
         lines = s.split("\n")
         assert lines[mu["line"] - 1] == mu["old"], "line mismatch"
@@ -136,12 +164,15 @@ def test_worker(wid, chunk):
         subprocess.run(["tar", "-x", "-C", root], stdin=ar.stdout, check=True)
     env = dict(os.environ, CARGO_TARGET_DIR=os.path.join(OUT, "ttarget%d" % wid), CARGO_NET_OFFLINE="true")
     for mu in chunk:
-        if "span" not in mu and "\n" in mu["old"]:
-            continue
         p = os.path.join(root, mu["file"])
         orig = open(p).read()
         try:
-            if "\n" in mu["old"]:      # block removal recorded without span: locate by text
+            if mu.get("two"):
+                lines = orig.split("\n")
+                assert "\n".join(lines[mu["line"] - 1:mu["line"] + 1]) == mu["old"]
+                lines[mu["line"] - 1:mu["line"] + 1] = mu["new"].split("\n")
+                open(p, "w").write("\n".join(lines))
+            elif "\n" in mu["old"]:      # block removal recorded without span: locate by text
                 assert orig.count(mu["old"]) >= 1
                 open(p, "w").write(orig.replace(mu["old"], "", 1))
             else:
@@ -178,6 +209,8 @@ if __name__ == "__main__":
             list(ex.map(lambda t: test_worker(*t), enumerate(chunks)))
         sys.exit(0)
     muts = gen()
+    if "--only-swaps" in sys.argv:
+        muts = [m for m in muts if m["op"] in ("argswap", "argswap2", "fieldswap")]
     random.Random(SEED).shuffle(muts)
     done = set()
     for p in glob.glob(os.path.join(OUT, "results.w*.jsonl")):
